@@ -18,6 +18,7 @@ def run(ctx):
         progs = main.result()
         for b in bs:
             b.result()
+    progs += tc.sim_replays(ctx, schema.BODY_KINDS + ["SLIT", "FADT", "TCPA_SERVER"], 9, 40 if th else 8)   # 9-step behaviours chosen by TLC
     longs = []
     for k in schema.BODY_KINDS:
         longs.append(tc.long_program(rng, k, 300, 1))                 # every step observed across 255/256 entries
